@@ -11,6 +11,7 @@ import (
 	"bytes"
 	"fmt"
 	"io"
+	"math"
 	"slices"
 )
 
@@ -47,7 +48,9 @@ type reader struct {
 
 // Returns a new fastq reader that reads from r.
 func newReader(r io.Reader) *reader {
-	return &reader{s: bufio.NewScanner(r)}
+	s := bufio.NewScanner(r)
+	s.Buffer(nil, math.MaxInt) // No limit on line length (the default is 64 KiB).
+	return &reader{s: s}
 }
 
 // Reads the next fastq entry from the reader.
